@@ -289,6 +289,81 @@ def s_validate():
 # ------------------------------------------------------------------ conversions
 
 
+# ------------------------------------------------------------------ fee accounting over a history on one Tx object
+
+
+def o_fee_history(case):
+    """one long-lived Tx: its unspents are replaced (set_unspents / unspents_from_db / plain assignment) and output values
+    edited between queries; every query must report the inputs and outputs as they are at that moment"""
+    seed = case["seed"]
+    sources = [_source(s, i, seed) for i, s in enumerate(case["sources"])]
+    db = dict((h, t) for t, h in sources)
+    spend = [(a % len(sources), b) for a, b in case["spend"]]
+    spend = [(a, b % len(case["sources"][a]["outs"])) for a, b in spend]
+    seen = set()
+    spend = [p for p in spend if not (p in seen or seen.add(p))]
+    txs_in = [Tx.TxIn(sources[a][1], b, b"", 0xffffffff) for a, b in spend]
+    true_amounts = [case["sources"][a]["outs"][b][0] for a, b in spend]
+    scripts = [bytes.fromhex(case["sources"][a]["outs"][b][1]) for a, b in spend]
+    out_values = [v for v, _s in case["outs"]]
+    tx = Tx(1, txs_in, [Tx.TxOut(v, bytes.fromhex(s)) for v, s in case["outs"]], 0)
+    amounts = [a + d for a, d in zip(true_amounts, (case["initial_delta"] * len(true_amounts))[:len(true_amounts)])]
+    tx.set_unspents([Tx.TxOut(a, s) for a, s in zip(amounts, scripts)])
+    labels, nq, replaced = [], 0, False
+    for op in case["ops"]:
+        if op[0] == "q":
+            nq += 1
+            ti, to, fee = tx.total_in(), tx.total_out(), tx.fee()
+            if ti != sum(amounts) or to != sum(out_values) or fee != sum(amounts) - sum(out_values):
+                _bad("fee:stale-or-wrong-totals", "query #%d after %s: total_in=%d total_out=%d fee=%d; the unspents sum to %d, the outputs to %d" % (
+                    nq, case["ops"][:case["ops"].index(op)], ti, to, fee, sum(amounts), sum(out_values)))
+            if replaced:
+                labels.append("query-after-replacement")
+        elif op[0] == "validate":
+            nq += 1
+            if amounts == true_amounts:
+                fee = tx.validate_unspents(db)
+                if fee != sum(amounts) - sum(out_values):
+                    _bad("fee:stale-or-wrong-totals", "validate_unspents returned %d, inputs - outputs = %d (history %s)" % (
+                        fee, sum(amounts) - sum(out_values), case["ops"]))
+                labels.append("validated")
+            else:
+                try:
+                    r = tx.validate_unspents(db)
+                except Exception:
+                    labels.append("discrepancy-refused")
+                else:
+                    _bad("validate_unspents:discrepancy-accepted:amount", "validate_unspents returned %r although recorded amounts %s differ from the sources %s" % (r, amounts, true_amounts))
+        elif op[0] == "set":
+            amounts = [max(0, a + d) for a, d in zip(true_amounts, (op[1] * len(true_amounts))[:len(true_amounts)])]
+            tx.set_unspents([Tx.TxOut(a, s) for a, s in zip(amounts, scripts)])
+            replaced = True
+        elif op[0] == "assign":
+            amounts = [max(0, a + d) for a, d in zip(true_amounts, (op[1] * len(true_amounts))[:len(true_amounts)])]
+            tx.unspents = [Tx.TxOut(a, s) for a, s in zip(amounts, scripts)]
+            replaced = True
+        elif op[0] == "from_db":
+            tx.unspents_from_db(db)
+            amounts = list(true_amounts)
+            replaced = True
+        elif op[0] == "out":
+            k = op[1] % len(out_values)
+            out_values[k] = op[2]
+            tx.txs_out[k].coin_value = op[2]
+            replaced = True
+    return sorted(set(labels)) + ["queries=%d" % min(nq, 4)]
+
+
+def s_fee_history():
+    from gen.common import weighted
+    deltas = st.lists(st.sampled_from([0, 0, 1, -1, 1000, 10**8]), min_size=1, max_size=3)
+    op = weighted((5, st.just(["q"])), (2, st.just(["validate"])), (2, st.tuples(st.just("set"), deltas).map(list)),
+                  (2, st.tuples(st.just("assign"), deltas).map(list)), (2, st.just(["from_db"])),
+                  (1, st.tuples(st.just("out"), st.integers(0, 5), st.integers(0, 10**9)).map(list)))
+    return st.builds(lambda base, init, ops: dict(base, initial_delta=init, ops=ops, discrepancy=None),
+                     s_validate(), deltas, st.lists(op, min_size=2, max_size=10))
+
+
 def _check_amount(n):
     """all conversion laws for one satoshi amount; returns label"""
     for name, to_dec, from_dec, frac, decimals in (
@@ -347,6 +422,9 @@ SUBCHECKS = [
                   "outpoints and unspents recorded from the sources; none or exactly one discrepancy (amount +-, script byte / length, "
                   "source missing, other transaction under the hash, filed transaction edited, index past the end, two different "
                   "unspents swapped): consistent -> returns inputs - outputs; discrepancy -> any exception; non-trivial = with discrepancy"),
+    SubCheck("fee_history", o_fee_history, strategy=s_fee_history, budget=(3000, 150000),
+             nontrivial=lambda c, l: "query-after-replacement" in l,
+             rule="one long-lived Tx: 2-10 operations, each a query (total_in / total_out / fee), a validate_unspents call, a replacement of the recorded unspents (set_unspents, unspents_from_db, or assignment to tx.unspents) with true or perturbed amounts, or an edit of an output value; every query equals the arithmetic on the current state; non-trivial = a query after a replacement"),
     SubCheck("conversions_below_1e5", o_convert_range, cases=cases_convert, exhaustive=True,
              rule="every n in 0..99999: satoshi_to_btc/mbtc(n) == n/10^8 resp. n/10^5 exactly (Fraction), back-conversion of the "
                   "Decimal, of its str(), of the fixed-point and of the shortest decimal string gives n"),
